@@ -401,6 +401,42 @@ def run(ctx: Ctx) -> None:
                              "a descent that receives an empty stack never finds its callee on it: a cycle through this call is analysed for ever (RecursionError instead of CIRCULAR_CALL)")
     rep.floor("C11.R11", n11, 3)
 
+    # ---- R12: the path splitter keeps the whole remainder ----
+    rep.rule("C11.R12", "abstract evaluation of the path splitter used by the overlap detector: '/s1/s2/../sn' splits into s1 and '/s2/../sn' for every depth (a truncated "
+                        "remainder hides overlaps below the second level)")
+    sp = prog.funcs.get("dds.structures_utils.DDSPathUtils.split")
+    if sp is None:
+        raise AnchorError("dds.structures_utils.DDSPathUtils.split not found")
+    from ..absint import Evaluator as _Ev, Const as _Const
+    n12 = 0
+    bad12, und12 = [], []
+    for depth in range(1, 6):
+        segs = [f"s{i}" for i in range(1, depth + 1)]
+        pth = "/" + "/".join(segs)
+        want = (segs[0], ("/" + "/".join(segs[1:])) if depth > 1 else None)
+        try:
+            outs = _Ev(prog).run(sp, [_Const(pth)])
+        except Exception as e:
+            und12.append(f"{pth}: {type(e).__name__}: {e}")
+            continue
+        got = {repr(o.value.v) if o.kind == "return" and isinstance(o.value, _Const) else f"{o.kind}:{o.value if o.kind == 'return' else o.exc}" for o in outs}
+        if got == {repr(want)}:
+            n12 += 1
+        elif any("TOP" in g for g in got):
+            und12.append(f"{pth}: {sorted(got)}")
+        else:
+            n12 += 1
+            bad12.append(f"split({pth!r}) gives {sorted(got)}, expected {want!r}")
+    desc12 = "DDSPathUtils.split returns the first segment and the complete remainder"
+    if bad12:
+        rep.bad("C11.R12", sp.qname, desc12, sp.loc(), bad12 + ["the overlap detector recurses on the remainder: '/a/b' and '/a/b/c' are compared as 'b' and 'b': no overlap is reported, user functions run "
+                "and the commit fails half way"], "split", what="the path splitter truncates the remainder: deeper overlaps are not detected")
+    elif und12:
+        rep.info("C11.R12", sp.qname, f"path splitter not evaluated abstractly ({und12[0]}): not judged", sp.loc())
+    else:
+        rep.ok("C11.R12", sp.qname, desc12 + " (depths 1..5)", sp.loc())
+    rep.floor("C11.R12", n12, 0)
+
     # ---- R9: both passes resolve every name of the module ----
     from .c01 import dismiss_rule
     rep.rule("C11.R9", "as C01.R6: the resolver dismisses a name only after it was not found in the module's namespace (a module-level `eval` imported "
